@@ -58,14 +58,17 @@ type elemInfo struct {
 	spanLo   int      // first page number of the enclosing section (subsections included)
 	spanHi   int      // last page number of the enclosing section (subsections included)
 	sectHead bool     // heading that forms a section under the chosen MinHeadingLevel
+	chain    []int    // element indices of the enclosing section headings (same length as path)
 }
 
 type built struct {
 	doc      *model.Document
 	elems    []elemInfo
-	expected []string       // all tokens in document order
-	tokElem  map[string]int // token -> element index
-	units    []unit         // every piece of source text a chunker renders as a whole
+	expected []string         // all tokens in document order
+	tokElem  map[string]int   // token -> (first) element index
+	tokElems map[string][]int // token -> every element that has it, in document order (several only for repeated heading texts)
+	expCount map[string]int   // token -> number of occurrences in the document
+	units    []unit           // every piece of source text a chunker renders as a whole
 	dump     strings.Builder
 }
 
@@ -86,6 +89,7 @@ type docSpec struct {
 	lpToks  int      // number of words in a long paragraph
 	tbShape string   // shape of every table element (tableShapes; "" = 2x2)
 	deco    string   // characters appended to every word (decorations; "" = none)
+	hgroup  []int    // heading identity: heading number j (document order) has the same text as heading number hgroup[j] <= j; nil = all different
 	// section-forming headings are those with level <= majorMax (rag.ChunkerConfig.MinHeadingLevel for the
 	// layout-based chunker; 6 for the document-integration chunker)
 	majorMax int
@@ -158,7 +162,8 @@ func (g *tokGen) words(n int) []string {
 }
 
 func build(s docSpec) *built {
-	b := &built{doc: model.NewDocument(), tokElem: map[string]int{}}
+	b := &built{doc: model.NewDocument(), tokElem: map[string]int{}, tokElems: map[string][]int{}, expCount: map[string]int{}}
+	var headToks [][]string // words of the headings so far, by heading ordinal
 	b.doc.Metadata.Title = "Doc Title"
 	g := &tokGen{}
 	// dj renders words as text: every word followed by the document's decoration
@@ -199,7 +204,13 @@ func build(s docSpec) *built {
 			info := elemInfo{k: k, pageIdx: pi, pageNo: page.Number}
 			switch {
 			case k.isHeading():
-				info.toks = g.words(2)
+				hj := len(headToks)
+				if hj < len(s.hgroup) && s.hgroup[hj] < hj {
+					info.toks = headToks[s.hgroup[hj]] // the same heading text again
+				} else {
+					info.toks = g.words(2)
+				}
+				headToks = append(headToks, info.toks)
 				info.text = dj(info.toks)
 				b.units = append(b.units, unit{k, info.text, info.toks})
 				if s.hrep == "toc" {
@@ -304,7 +315,11 @@ func build(s docSpec) *built {
 				fmt.Fprintf(&b.dump, "  %s %s\n", kindName[k], strings.Join(info.toks, " "))
 			}
 			for _, t := range info.toks {
-				b.tokElem[t] = len(b.elems)
+				if _, seen := b.tokElem[t]; !seen {
+					b.tokElem[t] = len(b.elems)
+				}
+				b.tokElems[t] = append(b.tokElems[t], len(b.elems))
+				b.expCount[t]++
 				b.expected = append(b.expected, t)
 			}
 			b.elems = append(b.elems, info)
@@ -338,8 +353,10 @@ func (b *built) reference(majorMax int) {
 			e.sectHead = true
 		}
 		e.path = make([]string, len(stack))
+		e.chain = make([]int, len(stack))
 		for j, s := range stack {
 			e.path[j] = s.text
+			e.chain[j] = s.idx
 		}
 		e.sect = -1
 		if len(stack) > 0 {
